@@ -459,7 +459,16 @@ def gen_case(rng, size=None, max_faces=80):
             feat = sorted(list(e) for e in feat)
         else:
             feat = []
+    # the container in which the singular vertices reach the constructor, and late completion of the caller's list
+    form = rng.choice(FORMS) if rng.random() < 0.6 else "list"
+    late = 0
+    if form == "list" and len(singus) >= 1 and rng.random() < 0.25:
+        late = rng.randint(1, len(singus))
     info = {"seed_kind": kind, "size": size, "edits": applied, "coords": style, "singu_mode": mode,
-            "features": feat is not None}
+            "features": feat is not None, "form": form, "late": late}
     info.update(st)
-    return {"nv": nv, "faces": faces, "coords": c2, "singus": singus, "feat": feat, "info": info}
+    return {"nv": nv, "faces": faces, "coords": c2, "singus": singus, "feat": feat, "form": form, "late": late,
+            "info": info}
+
+
+FORMS = ["list", "tuple", "set", "frozenset", "array", "dict", "attribute", "generator", "iter", "filter", "map"]
